@@ -382,3 +382,84 @@ def check_c13(ctx): return session_check(ctx, 'BinlogVerif.Props.C13', C13_THEOR
 
 
 CHECKS = {'C11': check_c11, 'C02': check_c02, 'C03': check_c03, 'C13': check_c13}
+
+
+# ------------------------------------------------------------------------------------------
+# C19
+# ------------------------------------------------------------------------------------------
+C19_THEOREMS = ['BinlogVerif.C19.c19_disabled', 'BinlogVerif.C19.c19_enabled', 'BinlogVerif.C19.c19_takes_effect',
+                'BinlogVerif.C19.c19_history', 'BinlogVerif.C19.c19_families', 'BinlogVerif.Generated.macros_match',
+                'BinlogVerif.Generated.macros_category', 'BinlogVerif.Generated.session_structure']
+
+
+def check_c19(ctx):
+    import json as _json
+    from concurrent.futures import ThreadPoolExecutor
+    ok = proof_step(ctx, 'BinlogVerif.Generated.Macros', C19_THEOREMS, extra_targets=['BinlogVerif.Generated.Session'])
+    exe = build_harness('macro_harness', link_repo=False)
+    sites = _json.load(open(os.path.join(VERIF, 'harness', 'macro_sites.json')))
+    rng = random.Random(ctx.seed * 1000003 + 19)
+    n = cases_count(ctx, 300, 6000)
+    lines = []
+    for _ in range(n):
+        toks = ['macro']
+        for _ in range(rng.choice([5, 20, 60])):
+            if rng.random() < 0.2:
+                toks += ['min', str(rng.randrange(2)), str(rng.choice([32, 64, 128, 256, 512, 1024, 32768, 0, 33]))]
+            else:
+                toks += ['stmt', str(rng.randrange(48))]
+        lines.append(' '.join(toks))
+    # the call sites are statics of the process: one process per script
+    def one(l):
+        rc, out, err = run_lines(exe, [l], timeout=60)
+        return out[0] if out else '<died: %s>' % err[-200:]
+    with ThreadPoolExecutor(max_workers=16) as ex:
+        impl = list(ex.map(one, lines))
+    rc, model, err = run_lines(driver_path(), lines)
+    mism, prop_fail, nontrivial = [], set(), set()
+    for i, l in enumerate(lines):
+        b = model[i] if i < len(model) else '<none>'
+        # property monitor on the implementation: python replay of the documented semantics
+        toks = l.split(' ')[1:]
+        mins = {0: 32, 1: 32}
+        seen = set()
+        segs = impl[i].split(';')
+        j, k = 0, 0
+        bad = None
+        while j < len(toks) and k < len(segs):
+            if toks[j] == 'min':
+                mins[int(toks[j + 1])] = int(toks[j + 2]); j += 3
+            else:
+                st = sites[int(toks[j + 1])]; j += 2
+                kv = parse_kv(segs[k])
+                enabled = st['severity'] >= mins[st['session']]
+                want = (1, 0 if st['site'] in seen else 1, st['nargs'] * (1 if st['site'] in seen else 2)) if enabled else (0, 0, 0)
+                if enabled:
+                    seen.add(st['site'])
+                got = (int(kv.get('events', -1)), int(kv.get('sources', -1)), int(kv.get('evals', -1)))
+                if got != want and bad is None:
+                    bad = 'statement %s (severity %d, minimum %d): events/sources/argument evaluations %s, expected %s' % (
+                        st['macro'], st['severity'], mins[st['session']], got, want)
+            k += 1
+        if bad:
+            prop_fail.add(i)
+            ctx.violation('c19-' + hashlib.sha256(l.encode()).hexdigest()[:10], 'C19: ' + bad, {'kind': 'history', 'input_line': l, 'impl': impl[i]})
+        elif impl[i] != b:
+            mism.append(i)
+            ctx.violation('corr-macro-%d' % i, 'correspondence macro broke: model and implementation disagree on case %d' % i,
+                          {'kind': 'correspondence', 'stream': 'macro', 'input_line': l, 'impl': impl[i], 'model': b,
+                           'broken': 'correspondence stream macro / Props.C19'}, found_input=False)
+        if 'events=0' in impl[i] and 'events=1' in impl[i]:
+            nontrivial.add(l)
+    ctx.streams['macro'] = {'cases': n, 'mismatches': len(mism)}
+    finish_proof(ctx, ok, bool(prop_fail))
+    ctx.coverage.update({'evaluations': n, 'distinct_nontrivial': len(nontrivial), 'traces_validated_against_impl': n - len(mism),
+                         'rule': 'histories of setMinSeverity (on the default session and on an explicit session; values incl. no_logs, 0, '
+                                 'non-enumerator) and log statements over 48 call sites = 24 macros x {0, 2 effectful arguments}; after each '
+                                 'statement both sessions are consumed and events, sources and argument evaluations are counted; '
+                                 'non-trivial = history with both enabled and disabled statements; distinct by history'})
+    ctx.samples = [lines[0][:300]]
+    return ctx.finish()
+
+
+CHECKS['C19'] = check_c19
